@@ -4588,6 +4588,10 @@ struct PendingContentLoadItem {
 #[derive(Debug, Default)]
 struct PendingJsrState {
   pending_resolutions: VecDeque<PendingJsrReqResolutionItem>,
+  /// Requirements resolved by this build. A requirement is resolved once:
+  /// later specifiers carrying the same requirement (another export of the
+  /// package) use the version the package table already names for it.
+  resolved_reqs: HashMap<PackageReq, PackageNv>,
   pending_content_loads:
     FuturesUnordered<LocalBoxFuture<'static, PendingContentLoadItem>>,
   metadata: Rc<JsrMetadataStore>,
@@ -5467,6 +5471,9 @@ impl<'a, 'graph> Builder<'a, 'graph> {
     package_info: &JsrPackageInfo,
     cached_versions: &HashSet<Version>,
   ) -> Result<PackageNv, JsrPackageReqNotFoundError> {
+    if let Some(package_nv) = self.state.jsr.resolved_reqs.get(package_req) {
+      return Ok(package_nv.clone());
+    }
     let version_resolver = self
       .jsr_version_resolver
       .get_for_package(&package_req.name, package_info);
@@ -5499,6 +5506,11 @@ impl<'a, 'graph> Builder<'a, 'graph> {
       .graph
       .packages
       .add_nv(package_req.clone(), package_nv.clone());
+    self
+      .state
+      .jsr
+      .resolved_reqs
+      .insert(package_req.clone(), package_nv.clone());
     Ok(package_nv)
   }
 
